@@ -217,10 +217,12 @@ def search(ctx, focus=(), deep=1):
 
 def check(ctx):
     ctx.rule = ('proof: for every class-A protocol and EVERY symbol sequence the base decoder rejects by bit count or reports exactly the bits and the frame it was given (C05_base); '
+                'C05_wrapper: for the protocols whose traced decode() tree meets the kernel-checked obligation c05OK (every path that returns a code forces every field to the encoder expression '
+                'of the reported parameters) EVERY in-width field vector is rejected with a library error or re-encodes to exactly the frame it came from; wrapper model vs real encode()/decode(); '
                 'search: all real decoders that round-trip the key: every field (checksum/complement/constant fields included) x bit positions flipped through the REAL _build_packet, '
                 'dropped/duplicated symbol, lead-in x0.5/x2, each on a fresh decoder and on one that has just decoded the intact frame; oracle: DecodeError-family / no code, or the reported '
                 'parameters re-encode (any toggle) to exactly the corrupted frame. distinct = (protocol, corruption, history, key)')
-    tabs, ok = engine_prove.prove(ctx, MODULES)
+    tabs, ok = engine_prove.prove(ctx, MODULES, with_wrappers=True)
     import fingerprint
     changed_p, changed_e = fingerprint.changed()
     focus = engine_prove.failed_protocols(ctx) | changed_p
@@ -228,6 +230,8 @@ def check(ctx):
     r = vlib.rng('c05corr')
     try:
         ec.standard_correspondence(ctx, r, per_proto=2 if not ctx.thorough else 6, focus=focus)
+        from props import wrap_common
+        wrap_common.correspondence(ctx, vlib.rng('c05wrap'), tabs, getattr(ctx, 'winfo', {}), per_proto=3 if not ctx.thorough else 12, focus=focus)
     except Exception:
         import traceback
         ctx.oblige('correspondence_driver', False, traceback.format_exc()[-500:])
